@@ -581,7 +581,14 @@ class PVLParser(object):
                 "an Assignment-Statement."
             )
 
-        self.parse_around_equals(tokens)
+        try:
+            self.parse_around_equals(tokens)
+        except LexerError:
+            raise
+        except ValueError as err:
+            # The Parameter Name has been consumed, so this can no longer
+            # be "some other kind of statement".
+            tokens.throw(ValueError, f'After "{parameter_name}": {err} ')
 
         try:
             # print(f'parameter name: {parameter_name}')
